@@ -164,6 +164,52 @@ def random_scripts(tier, rng, tid0, n):
     return scripts
 
 
+def mmc_cfg(maxidx, maxops, maxid, emit=True):
+    return """SPECIFICATION MCSpec
+CONSTANTS
+  MaxIdx = %d
+  MaxOps = %d
+  MaxId = %d
+  Emit = %s
+CONSTRAINT Bound
+VIEW View
+INVARIANT NoViol
+INVARIANT StructInv
+CHECK_DEADLOCK FALSE
+""" % (maxidx, maxops, maxid, "TRUE" if emit else "FALSE")
+
+
+def opt(v):
+    return v[0] if v else None
+
+
+def conv_marker_script(hist, tid):
+    ops = []
+    nsaves = 0
+    for o in hist:
+        k = o["o"]
+        if k == "create":
+            ops.append({"o": "create", "w": 0, "a": opt(o["a"]), "b": None})
+        elif k == "mark":
+            ops.append({"o": "mark", "w": 0, "h": o["k"] - 1})
+        elif k == "delete":
+            ops.append({"o": "delete", "w": 0, "h": o["k"] - 1})
+        elif k == "setr":
+            ops.append({"o": "set", "w": 0, "h": o["k"] - 1, "c": "r", "v": [x - 1 for x in o["vk"]] if o["v"] else None})
+        elif k == "amaintain":
+            ops.append({"o": "amaintain", "w": 0})
+        elif k == "save":
+            ops.append({"o": "save", "w": 0, "rec": False, "fmt": ["json", "ron"][tid % 2]})
+            nsaves += 1
+        elif k == "load":
+            if o["own"]:
+                ops.append({"o": "load", "w": 0, "blob": nsaves - 1})
+            else:
+                ops.append({"o": "loadsynth", "w": 0, "fmt": ["json", "ron"][(tid // 2) % 2],
+                            "recs": [{"m": r["m"], "a": opt(r["a"]), "b": opt(r["b"]), "r": (r["r"][0] if r["r"] else None)} for r in o["recs"]]})
+    return {"tid": tid, "marker": "simple", "worlds": 1, "ops": ops}
+
+
 def check(prop, tier, seed):
     params = {"tier": tier}
     key = C.suite_key("saveload", params, seed, tier)
@@ -172,14 +218,18 @@ def check(prop, tier, seed):
         hit["cache_hit"] = True
         return [hit]
     rng = random.Random(seed * 271 + 11)
-    scripts = content_scripts(tier, rng, 71000000) + random_scripts(tier, rng, 72000000, 250 if tier == "quick" else 4000)
+    from . import worldgen as G
+    st, tl = C.model_check("Marker_MC.tla", mmc_cfg(2, 5, 2) if tier == "quick" else mmc_cfg(3, 6, 2), "marker_" + tier, workers=8)
+    mscripts = [conv_marker_script(h, 73000000 + i) for i, h in enumerate(G.dedupe_prefixes(tl))]
+    scripts = (content_scripts(tier, rng, 71000000) + random_scripts(tier, rng, 72000000, 250 if tier == "quick" else 4000)
+               + mscripts)
     workdir = os.path.join(C.OUT, "work", key)
     C.sh(["rm", "-rf", workdir])
     r = C.exec_and_validate("sl", scripts, workdir, "SaveLoad_Trace.tla", "SaveLoad_Trace.cfg", events_per_chunk=1500,
                             est_events_per_script=20)
-    res = {"suite": "saveload", "kind": "enum+rand", "params": params, "cache_hit": False,
+    res = {"suite": "saveload", "kind": "mc+enum+rand", "params": params, "cache_hit": False, "mc": st, "tlc_scripts": len(tl),
            "n_scripts": r["n_scripts"], "n_events": r["n_events"], "wall_s": r["wall_s"]}
-    res["rule"] = "all world contents on <= 3 entities (sampled in the quick tier) + random reference graphs on 4-6 entities for the recursive serialiser + re-mark/counter scripts + random two-world histories; every operation logs the complete world content; TLC validates against SaveLoad_L0"
+    res["rule"] = "one script per transition TLC explored on Marker_L1 (allocator counter, stale mapping, mark / delete / allocator-maintain / save / load of own and synthetic data) + all world contents on <= 3 entities (sampled in the quick tier) + random reference graphs on 4-6 entities for the recursive serialiser + re-mark/counter scripts + random two-world histories; every operation logs the complete world content; TLC validates against SaveLoad_L0"
     bytid = {s["tid"]: s for s in scripts}
     viol, seen = [], set()
     for v in sorted(r["viol"], key=lambda x: (x["p"], x["tid"], x["line"])):
